@@ -24,7 +24,7 @@ CHECKS = {
          "DESIGN.md §3 C06"),
  "C01": ("model_checking",
          "exhaustive enumeration of the price functions over a finite input lattice (all small triples, powers of two +-1 up to 2^128, 5 boundary fees) plus explicit-state exhaustive search over swap/add/remove/one-sided/donate/fee-change sequences on the real coinswap keeper, invariant recomputed from observed balances in exact integers",
-         "Kernel: every (amount, reserve_in, reserve_out, fee) in the lattice checked against the fee-inclusive constant-product inequality, maximality of the received amount and minimality+1 of the paid amount. Search: every operation sequence up to the depth bound on two pools (small non-round reserves and reserves near 2^127): after every successful message S'T'L^2 >= STL'^2 per pool and the fee rule per swap leg from observed reserve deltas. Orders from a denomination to itself are in the alphabet; an executed one is judged leg by leg from the bank transfer events of the message.",
+         "Kernel: every (amount, reserve_in, reserve_out, fee) in the lattice checked against the fee-inclusive constant-product inequality, maximality of the received amount and minimality+1 of the paid amount. Search: every operation sequence up to the depth bound on two pools (small non-round reserves and reserves near 2^127): after every successful message S'T'L^2 >= STL'^2 per pool and the fee rule per swap leg from observed reserve deltas. Orders from a denomination to itself are in the alphabet; an executed one is judged leg by leg from the bank transfer events of the message. A further part makes the first pool's escrow a vesting account with locked standard coins (reserves like any other).",
          "DESIGN.md §3 C01"),
  "C02": ("model_checking",
          "explicit-state exhaustive search over swap/liquidity message sequences with a full balance-sheet oracle (all accounts of the universe + supply per denom) and a differential bound oracle (amounts learned on a throw-away branch, then bounds set exact / off by one)",
@@ -52,7 +52,7 @@ CHECKS = {
          "DESIGN.md §3 C09"),
  "C07": ("model_checking",
          "explicit-state exhaustive search over call/respond/withdraw/bind-update-disable-enable-refund/block sequences on the real service keeper with a relational balance-sheet oracle per message and per end-block and conservation invariants in every state",
-         "Every sequence up to the depth bound over 3 providers (time promotion, volume promotion, plain price), 2 owners, a rich and a poor consumer, one-shot and repeated contexts: deposit escrow = sum of recorded deposits; request escrow = active request fees + unwithdrawn earned fees (provider and owner tallies agree); per end-block the consumer is charged exactly the fees recorded on the new requests, expired requests are refunded in full and slash floor(deposit*fraction) to the fee pool; per response fee minus floor(fee*tax) is earned and the tax reaches the fee pool; withdrawals and deposit moves are exact. A part gives the poor consumer a batch of two requests of which he can pay one: nothing may be charged for requests that are not issued. A part runs a module-owned context whose threshold is below its provider count (one provider stays silent).",
+         "Every sequence up to the depth bound over 3 providers (time promotion, volume promotion, plain price), 2 owners, a rich and a poor consumer, one-shot and repeated contexts: deposit escrow = sum of recorded deposits; request escrow = active request fees + unwithdrawn earned fees (provider and owner tallies agree); per end-block the consumer is charged exactly the fees recorded on the new requests, expired requests are refunded in full and slash floor(deposit*fraction) to the fee pool; per response fee minus floor(fee*tax) is earned and the tax reaches the fee pool; withdrawals and deposit moves are exact. A part gives the poor consumer a batch of two requests of which he can pay one: nothing may be charged for requests that are not issued. A part runs a module-owned context whose threshold is below its provider count (one provider stays silent); a part runs the consumer's pause / start / kill / update messages under the fee oracles.",
          "DESIGN.md §3 C07"),
  "C08": ("model_checking",
          "explicit-state exhaustive search over call/respond (by addressed provider, other provider, stranger, duplicate)/pause/start/kill/update (by consumer and stranger)/block sequences with a request-status and batch-schedule reference model; module callbacks registered on the real keeper and counted from emitted events",
@@ -76,11 +76,11 @@ CHECKS = {
          "DESIGN.md §3 C17"),
  "C10": ("model_checking",
          "exhaustive enumeration of LossLessSwap over all scale pairs 0..18 x an input lattice x 8 ratios against exact rational arithmetic, plus explicit-state exhaustive search over ERC20 conversions (both directions, by min unit and by symbol, swap-to-native hook, ERC20 switch off/on, restart from exported genesis) with a store-backed fault-injecting EVM (<= 1 fault per conversion) and fee-token swaps at three ratios on the real token keeper",
-         "Kernel: 0 <= burned <= offered, minted*10^s_in <= burned*ratio*10^s_out, equality and unconvertible dust at ratio 1. Search: every conversion moves exactly the amount on both ledgers and keeps native+ERC20 supply constant; any failure (insufficient balance, blocked receiver, injected EVM call error / VM failure / wrong credited amount / balanceOf error) leaves both ledgers unchanged; fee swaps never burn more than offered, never mint more than worth, supplies move by exactly burned/minted, module account empty. The fee-swap registry is built once per application instance; one part issues the second fee token on the path with one of two scales; one part deploys the contract with other decimals than the token's scale (the EVM seam answers decimals() accordingly); contract-initiated conversions carry a real EVM message, addressed to the bound contract or to another contract that calls it; a conversion event naming a receiver that is no account of the chain must fail as a whole; native coins parked on the token module account stay out of every conversion.",
+         "Kernel: 0 <= burned <= offered, minted*10^s_in <= burned*ratio*10^s_out, equality and unconvertible dust at ratio 1. Search: every conversion moves exactly the amount on both ledgers and keeps native+ERC20 supply constant; any failure (insufficient balance, blocked receiver, injected EVM call error / VM failure / wrong credited amount / balanceOf error) leaves both ledgers unchanged; fee swaps never burn more than offered, never mint more than worth, supplies move by exactly burned/minted, module account empty. The fee-swap registry is built once per application instance; one part issues the second fee token on the path with one of two scales; one part deploys the contract with other decimals than the token's scale (the EVM seam answers decimals() accordingly); contract-initiated conversions carry a real EVM message, addressed to the bound contract or to another contract that calls it; a conversion event naming a receiver that is no account of the chain must fail as a whole; native coins parked on the token module account stay out of every conversion. A fee-swap part issues the minted token one unit below its maximum supply.",
          "DESIGN.md §3 C10"),
  "C12": ("model_checking",
          "explicit-state exhaustive search with 15 module drivers (record, coinswap, farm x3, htlc x2, token, nft, mt x2, service, random, oracle x2; governance parameter changes offered as operations) wrapped by a genesis round-trip oracle evaluated in every reached state at the block boundary: export -> module's own validation -> InitGenesis on a second application instance with emptied stores -> export again (byte fixpoint) -> first begin-block -> query comparison on the original object ids; second variant after the modules' prepare-for-zero-height step, with a census of durable objects before/after that step",
-         "In every reachable state of the drivers (bounded depth): the exported genesis (auth, bank and the module's) passes the module's ValidateGenesis, InitGenesis does not panic, the second export equals the first, and pools / stakes and pending rewards / open HTLCs and asset supplies / tokens and burn tallies / NFT classes, collections, owners, supply / MT classes, tokens, balances / service definitions, bindings, contexts, earned fees / feeds with their values / records by original id answer identically after re-import. Six bulk parts start from states with 130 objects of a module (more than a page of the paginated store walk) and ask for every object by its own id. The service driver also sets withdraw addresses for owners with 20- and 32-byte account addresses.",
+         "In every reachable state of the drivers (bounded depth): the exported genesis (auth, bank and the module's) passes the module's ValidateGenesis, InitGenesis does not panic, the second export equals the first, and pools / stakes and pending rewards / open HTLCs and asset supplies / tokens and burn tallies / NFT classes, collections, owners, supply / MT classes, tokens, balances / service definitions, bindings, contexts, earned fees / feeds with their values / records by original id answer identically after re-import. Six bulk parts start from states with 130 objects of a module (more than a page of the paginated store walk) and ask for every object by its own id. The service driver also sets withdraw addresses for owners with 20- and 32-byte account addresses; the token identity variant (crossed symbol / min-unit names) and the ERC20 registration variant run under the wrapper too.",
          "DESIGN.md §3 C12"),
  "C18": ("model_checking",
          "exhaustive enumeration of the PRNG over a lattice of block hashes, times, requesters and seeds in two evaluation orders, plus explicit-state exhaustive search over request (plain and oracle-seeded, intervals 0..3, two requesters, chains starting at height 1 and 253)/respond (valid, malformed, error)/block sequences on the real random+service keepers with a pending-set reference model compared through the queries in every state",
@@ -88,7 +88,7 @@ CHECKS = {
          "DESIGN.md §3 C18"),
  "C11": ("model_checking",
          "explicit-state exhaustive search with 20 module drivers in which every transition is re-executed from the same pre-state on fresh application instances (state transplanted key by key = restart / other node) under deviating host clocks (+-7 min, +400 days, clock = block time) and map iteration orders (runtime seeds 1..7), both controlled through a build-time overlay of GOROOT's time and runtime packages; whole-application state hash, transaction result and exported genesis compared byte for byte; plus cross-process replicas: the enumerated op paths of every driver (length <= 4, first 1500) executed in three operating-system processes, one of them walking siblings in reverse order, digests of all stores and exports compared path by path",
-         "Every transition of every driver up to the (reduced) depth bound: the warm search instance under the baseline environment and cold replicas under deviating environments must agree on the result class, on every KV store of the application and on a digest of what the transition returned (typed responses, events with their attributes in order, begin/end-block events); one deviation runs under another host time zone, one with node-local telemetry switched on; the digest includes the gas each transaction used; in the quick tier the restarted-node replica runs on every second transition; in every reached state the exported genesis of bank and the driver's modules must be identical under every map seed and clock offset. One search worker per process (seams are process-global), one process per driver. Across processes: the same history leads to the same stores and exported genesis whatever the process drew for itself (maphash seeds, start time) and whatever other paths it executed before.",
+         "Every transition of every driver up to the (reduced) depth bound: the warm search instance under the baseline environment and cold replicas under deviating environments must agree on the result class, on every KV store of the application and on a digest of what the transition returned (typed responses, events with their attributes in order, begin/end-block events); one deviation runs under another host time zone, one with node-local telemetry switched on; the digest includes the gas each transaction used; in the quick tier the restarted-node replica (which also runs in another time zone) takes every second transition; in every reached state the exported genesis of bank and the driver's modules must be identical under every map seed and clock offset. One search worker per process (seams are process-global), one process per driver. Across processes: the same history leads to the same stores and exported genesis whatever the process drew for itself (maphash seeds, start time) and whatever other paths it executed before.",
          "DESIGN.md §3 C11"),
 }
 NOT_YET = "check not built yet in this phase of the work (see DESIGN.md §6 change log); not claimed"
